@@ -20,7 +20,7 @@ from ..core import drive
 PROP = 'C10'
 SHARDS = {'quick': 4, 'thorough': 16}
 EXHAUSTIVE = True
-RULE = ('(a) complete slice grid (1792 slices x lengths 0..5 x classes); (b) every operation sequence of length <= 2 (quick; <= 3 '
+RULE = ('(a) complete slice grid (1792 slices x lengths 0..5 x classes); (b) every operation sequence of length <= 2 (quick, plus every third of length 3 for SE3; <= 3 '
         'thorough, 4 for one class) over a 24-operation alphabet from every start length 0..4, full state comparison after every '
         'step; (c) random sequences up to length 60. distinct = (class, start length, operation sequence) / (class, length, slice); '
         'non-trivial = sequence of length >= 2 containing a mutator, or a slice of a non-empty object')
@@ -595,6 +595,8 @@ def run(ctx):
             for start in range(0, 5):
                 for seq in itertools.product(alphabet, repeat=L):
                     i += 1
+                    if L == 3 and ctx.tier == 'quick' and i % 3:
+                        continue            # quick tier: every third length-3 history (all of them in the thorough tier)
                     if not ctx.mine(i):
                         continue
                     drive(RUNNERS, ctx, 'history', dict(cls=c, start=start, ops=list(seq), pool=pools[c]))
